@@ -159,6 +159,18 @@ func main() {
 			skipped[k] = "fragment"
 			continue
 		}
+		if f.Extern {
+			skipped[k] = "extern"
+			continue
+		}
+		uses := false
+		for _, in := range f.Inputs {
+			uses = uses || in.Oracle != ""
+		}
+		if uses { // what the external calls return cannot be chosen from here
+			skipped[k] = "oracle"
+			continue
+		}
 		g.b.Reset()
 		g.pf("func gfCase%d(w *bufio.Writer) {\n", k)
 		var args []string // actual arguments of the Go call
@@ -217,8 +229,12 @@ func main() {
 		}
 		g.pf("\tin := []string{%s}\n", strings.Join(ins, ", "))
 		var rs []string
-		for i := range f.Results {
+		for i := range f.ResGo {
 			rs = append(rs, fmt.Sprintf("r%d", i))
+		}
+		outs := append([]string{}, rs...) // the results, then the fields the function assigned
+		for _, in := range f.Written {
+			outs = append(outs, reads[in])
 		}
 		call := f.Decl.Name.Name + "(" + strings.Join(args, ", ") + ")"
 		if f.Decl.Recv != nil {
@@ -228,7 +244,10 @@ func main() {
 			}
 			call = recv + "." + f.Decl.Name.Name + "(" + strings.Join(args[1:], ", ") + ")"
 		}
-		g.pf("\tres := gfCall(%d, func() []interface{} {\n\t\t%s := %s\n\t\treturn []interface{}{%s}\n\t})\n", k, strings.Join(rs, ", "), call, strings.Join(rs, ", "))
+		if len(rs) > 0 {
+			call = strings.Join(rs, ", ") + " := " + call
+		}
+		g.pf("\tres := gfCall(%d, func() []interface{} {\n\t\t%s\n\t\treturn []interface{}{%s}\n\t})\n", k, call, strings.Join(outs, ", "))
 		g.pf("\tfmt.Fprintf(w, \"%d\\t%%s\\t%%s\\n\", strings.Join(in, \" \"), res)\n}\n\n", k)
 		body.WriteString(g.b.String())
 	}
@@ -296,6 +315,13 @@ func main() {
 			}
 			if f.Prefix > 0 {
 				fmt.Printf("validate: %-12s %-28s fragment of a function body: cannot be run on its own, not validated\n", rel, f.Name)
+				continue
+			}
+			if why == "extern" {
+				continue
+			}
+			if why == "oracle" {
+				fmt.Printf("validate: %-12s %-28s calls functions declared #extern: their results cannot be chosen, not validated\n", rel, f.Name)
 				continue
 			}
 			fmt.Printf("validate: %s %s: SKIPPED (%s)\n", rel, f.Name, why)
@@ -423,7 +449,7 @@ func main() {
 		fmt.Printf("validate: %s: FAILED (%d mismatches, %d functions not validated)\n", rel, bad, failed)
 		os.Exit(1)
 	}
-	fmt.Printf("validate: %s: all %d functions agree with the compiled Go code\n", rel, len(fns))
+	fmt.Printf("validate: %s: all %d functions that can be run agree with the compiled Go code\n", rel, len(fns)-len(skipped))
 }
 
 func must(err error) {
